@@ -97,10 +97,11 @@ pub(crate) fn named(attr: &StructAttr, ts_name: Expr, fields: &FieldsNamed) -> R
 
     Ok(DerivedTS {
         crate_rename,
-        // the `replace` combines `{ ... } & { ... }` into just one `{ ... }`. Not necessary, but it
-        // results in simpler type definitions.
-        inline: quote!(#inline.replace(" } & { ", " ")),
-        inline_flattened: Some(quote!(#inline_flattened.replace(" } & { ", " "))),
+        // the `replace` combines `{ ..., } & { ... }` into just one `{ ..., ... }`. Not necessary,
+        // but it results in simpler type definitions. Only an object that ends in a `,` can be
+        // continued like that: `{ "tag": "Variant" } & { .. }` has to stay as it is.
+        inline: quote!(#inline.replace(", } & { ", ", ")),
+        inline_flattened: Some(quote!(#inline_flattened.replace(", } & { ", ", "))),
         docs: attr.docs.clone(),
         dependencies,
         export: attr.export,
